@@ -37,6 +37,12 @@ EXPLANATION = (
     "simpson call (also through the local compatibility alias) over exactly load_pdf * norm.cdf(load_values, loc=log10("
     "strength_median), scale=strength_std) with the abscissa load_values. R-C15-6: no method other than the constructor writes "
     "an attribute the pf_* methods read.")
+LEVEL_NOTE = ("Decides WHICH integral is computed (integrand, coordinate shift, limits, returned component, deterministic and sampled "
+              "variants, strength parameters left alone) - necessary conditions of the property. NOT decided, and the larger part "
+              "of the property: whether scipy's adaptive quadrature resolves a narrow strength distribution for every scatter "
+              "ratio, the monotonicity in the medians, the range [0, 1] and the convergence of the trapezoid variant - these "
+              "quantify over runtime values of a library routine. Trusted: the in-house front end / def-use / normal-form engine "
+              "under /verif/sa, python's ast, and: ")
 ASSUMPTIONS = ["scipy.stats.norm.pdf/cdf(x, loc, scale) are the density / distribution function of (x-loc)/scale (density divided by scale)",
                "scipy.integrate.quad(f, a, b) returns (integral of f over [a, b], error estimate); np.trapezoid(y, x=x) integrates y over x",
                "strength_std and load_std are positive; medians are positive",
@@ -251,6 +257,8 @@ def _norm_load(ctx):
     ctx.rule("R-C15-1", floor=4, what="integrand of the quadrature = load pdf x strength cdf in one coordinate")
     ctx.rule("R-C15-2", floor=4, what="integration limits follow the coordinate shift; default limits cover >= 8 load_std on the right side")
     ctx.rule("R-C15-3", floor=1, what="pf_norm_load returns the integral itself")
+    ctx.rule("R-C15-7", floor=1, what="absolute tolerance of the quadrature below the smallest probability named")
+    ctx.rule("R-C15-8", floor=1, what="break points enclose the rise of the strength cdf")
     ctx._rule = "R-C15-1"
     params = [p for p in fi.params if p != "self"]
     if len(params) < 2:
@@ -338,10 +346,19 @@ def _norm_load(ctx):
     lims = [kwarg(q, "a", 1), kwarg(q, "b", 2)]
     if lims[0] is None or lims[1] is None:
         raise AnalysisError("quad call without both limits")
+    try:
+        part = _partition(fi, q, env)
+    except _WrongComponent as wc:
+        ctx.violated(fi, q, "the pieces summed are component %s of the quad results, not the integrals" % wc.args[0],
+                     text="returned component", rule="R-C15-3")
+        return
+    breaks = []
+    if part is not None:
+        lims, breaks, comp = part
     lim_params = params[2:4]
     ctx._rule = "R-C15-2"
     for side, (lim, sgn) in enumerate(zip(lims, (-1, 1))):
-        lim_full = subst_names(lim, env) if not isinstance(lim, ast.Name) or lim.id in env else lim
+        lim_full = lim if part is not None else (subst_names(lim, env) if not isinstance(lim, ast.Name) or lim.id in env else lim)
         which = "lower" if sgn < 0 else "upper"
         tests = _none_params(lim_full)
         if not tests:
@@ -389,6 +406,7 @@ def _norm_load(ctx):
                              text="%s limit default width" % which)
             else:
                 ctx.holds(fi, lim, "default %s limit = centre %+g load scales" % (which, float(kc)))
+    ctx.attempt(_tolerance_and_breaks, fi, q, env, sym, cloc_n - (ca_n - X), cscale_n, breaks, None)
     # ---- result
     ctx._rule = "R-C15-3"
     if not rets:
@@ -397,6 +415,15 @@ def _norm_load(ctx):
         renv, _ = _closed(fi, r)
         val = subst_names(r.value, renv)
         val = _strip_clip(val)
+        if part is not None:
+            if val is comp or norm_text(val) == norm_text(subst_names(comp, renv)) or norm_text(val) == norm_text(comp):
+                ctx.holds(fi, r, "returns the sum of component 0 of the quad results over the partition of the range")
+            elif any(norm_text(n) in (norm_text(comp), norm_text(subst_names(comp, renv))) for n in ast.walk(val) if isinstance(n, ast.Call)):
+                ctx.violated(fi, r, "pf_norm_load returns %s: the integral is altered before it is returned" % norm_text(r.value)[:80],
+                             text="returned value altered")
+            else:
+                raise AnalysisError("return of pf_norm_load not traced to the piecewise quadrature: %s" % norm_text(r.value)[:80])
+            continue
         ok = isinstance(val, ast.Subscript) and val.value is not None and _same_call(val.value, q, env) and const_value(val.slice) == 0
         if ok:
             ctx.holds(fi, r, "returns component 0 of the quad result")
@@ -412,6 +439,194 @@ def _norm_load(ctx):
 
 def clone_noparent(e):
     return clone(e)
+
+
+class _WrongComponent(Exception):
+    pass
+
+
+P_MIN = Fraction(1, 10 ** 12)       # smallest failure probability the property names
+
+
+def _tolerance_and_breaks(ctx, fi, q, env, sym, centre_cdf, cscale_n, breaks, lims_n):
+    """R-C15-7 / R-C15-8 (added with the repair of the far-tail / narrow-strength defects, DESIGN section 4)"""
+    ctx._rule = "R-C15-7"
+    ea = kwarg(q, "epsabs", 4)
+    if ea is None:
+        ctx.violated(fi, q, "quad is called with its default absolute tolerance (1.49e-8): the refinement stops as soon as the error "
+                     "estimate is below it, so probabilities below about 1e-8 are not resolved (the property names 1e-12)",
+                     text="epsabs default")
+    else:
+        try:
+            v = sym.nf(subst_names(ea, env)).as_const()
+        except NFUnsupported:
+            v = None
+        if v is None:
+            raise AnalysisError("absolute tolerance of the quadrature is not a literal: %s" % norm_text(ea))
+        if v <= P_MIN / 10:
+            ctx.holds(fi, ea, "absolute tolerance %g is below a tenth of the smallest probability named (1e-12)" % float(v))
+        else:
+            ctx.violated(fi, q, "the absolute tolerance of the quadrature is %g: probabilities down to 1e-12 need it below 1e-13"
+                         % float(v), text="epsabs too large")
+    ctx._rule = "R-C15-8"
+    pts = kwarg(q, "points")
+    cand = list(breaks)
+    if pts is not None:
+        cand += _elements(subst_names(pts, env))
+    ks = []
+    for e in cand:
+        try:
+            k = ((sym.nf(e) - centre_cdf) / cscale_n).as_const()
+        except NFUnsupported:
+            continue
+        if k is not None:
+            ks.append(k)
+    lo = [k for k in ks if -16 <= k <= -4]
+    hi = [k for k in ks if 4 <= k <= 16]
+    if lo and hi:
+        ctx.holds(fi, q, "break points at the centre of the strength cdf %+g and %+g strength_std enclose its rise" % (float(max(lo)), float(min(hi))))
+    else:
+        ctx.violated(fi, q, "the quadrature gets no break points enclosing the rise of the strength cdf (centre -/+ 4..16 strength_std, "
+                     "as sub-interval ends or points=): when the load scatter is much larger than the strength scatter none of the "
+                     "21 nodes of the first pass falls into the rise and the error estimate is blind to it (0.4995 instead of 0.5 "
+                     "for load_std = 300 strength_std)", text="break points around the strength cdf")
+
+
+def _elements(e):
+    """scalar element expressions of an array-valued expression: list/tuple literals, np.array([...]), element-wise arithmetic
+    with one array literal, np.clip(X, lo, hi) (elements of X; the clip keeps a break point or moves it onto a limit)"""
+    e = _strip_conv(e)
+    if isinstance(e, ast.Call) and (call_name(e) or "") in ("np.clip", "numpy.clip") and e.args:
+        return _elements(e.args[0])
+    if isinstance(e, ast.Call) and (call_name(e) or "") in ("np.unique", "np.sort", "sorted", "np.concatenate", "np.hstack", "np.r_") and e.args:
+        return _elements(e.args[0])
+    if isinstance(e, (ast.List, ast.Tuple)):
+        out = []
+        for x in e.elts:
+            if isinstance(x, (ast.List, ast.Tuple)) or (isinstance(x, ast.Call) and (call_name(x) or "") in
+                                                        ("np.clip", "np.array", "np.asarray", "np.unique", "np.sort", "np.concatenate")):
+                out += _elements(x)
+            else:
+                sub = _elements(x) if _array_literals(x) else [x]
+                out += sub
+        return out
+    lits = _array_literals(e)
+    if len(lits) == 1:
+        lit = lits[0]
+        out = []
+        for x in lit.elts:
+            out.append(_replace(e, lit, x))
+        return out
+    if not lits:
+        return [e]
+    raise AnalysisError("break points: expression with several array literals not modelled: %s" % norm_text(e)[:80])
+
+
+def _array_literals(e):
+    out = []
+    for n in ast.walk(e):
+        if isinstance(n, ast.Call) and (call_name(n) or "") in ("np.array", "np.asarray", "numpy.array") and n.args and \
+                isinstance(n.args[0], (ast.List, ast.Tuple)):
+            out.append(n.args[0])
+    if not out and isinstance(e, (ast.List, ast.Tuple)):
+        out.append(e)
+    return out
+
+
+def _replace(e, lit, x):
+    """copy of e with the array literal (and its np.array wrapper) replaced by the scalar x"""
+    def rec(n):
+        if isinstance(n, ast.Call) and n.args and n.args[0] is lit:
+            return clone(x)
+        if n is lit:
+            return clone(x)
+        if not isinstance(n, ast.AST):
+            return n
+        new = type(n)()
+        for f, v in ast.iter_fields(n):
+            if isinstance(v, list):
+                setattr(new, f, [rec(i) for i in v])
+            elif isinstance(v, ast.AST):
+                setattr(new, f, rec(v))
+            else:
+                setattr(new, f, v)
+        return new
+    return rec(e)
+
+
+def _partition(fi, q, env):
+    """`sum(quad(f, a, b, ...)[0] for a, b in zip(E[:-1], E[1:]))` with E = sort/unique of [lo, clip(X, lo, hi)..., hi]:
+    the sub-intervals tile [lo, hi].  -> ([lo, hi], break point expressions, the sum expression) or None if the quad call is
+    not inside a comprehension"""
+    p = q
+    comp = None
+    while p is not None and not isinstance(p, ast.stmt):
+        if isinstance(p, (ast.GeneratorExp, ast.ListComp)):
+            comp = p
+        p = getattr(p, "_parent", None)
+    if comp is None:
+        return None
+    if len(comp.generators) != 1 or comp.generators[0].ifs:
+        raise AnalysisError("piecewise quadrature: comprehension form not modelled")
+    g = comp.generators[0]
+    elt = comp.elt
+    if isinstance(elt, ast.Subscript) and elt.value is q and isinstance(const_value(elt.slice), int) and const_value(elt.slice) != 0:
+        raise _WrongComponent(const_value(elt.slice))
+    if not (isinstance(elt, ast.Subscript) and elt.value is q and const_value(elt.slice) == 0):
+        raise AnalysisError("piecewise quadrature: the summed element is not component 0 of the quad result: %s" % norm_text(elt)[:60])
+    outer = getattr(comp, "_parent", None)
+    if not (isinstance(outer, ast.Call) and (call_name(outer) or "") in ("sum", "np.sum", "math.fsum", "fsum", "numpy.sum") and
+            outer.args and outer.args[0] is comp and len(outer.args) == 1 and not outer.keywords):
+        raise AnalysisError("piecewise quadrature: the pieces are not summed")
+    if not (isinstance(g.target, ast.Tuple) and len(g.target.elts) == 2 and all(isinstance(t, ast.Name) for t in g.target.elts)):
+        raise AnalysisError("piecewise quadrature: loop target not modelled")
+    a_name, b_name = g.target.elts[0].id, g.target.elts[1].id
+    la, lb = kwarg(q, "a", 1), kwarg(q, "b", 2)
+    if not (isinstance(la, ast.Name) and isinstance(lb, ast.Name) and (la.id, lb.id) == (a_name, b_name)):
+        raise AnalysisError("piecewise quadrature: the limits of a piece are not the loop variables in order")
+    it = g.iter
+    E = None
+    if isinstance(it, ast.Call) and (call_name(it) or "") == "zip" and len(it.args) == 2:
+        u, v = it.args
+        if isinstance(u, ast.Subscript) and isinstance(v, ast.Subscript) and norm_text(u.value) == norm_text(v.value) and \
+                norm_text(u.slice) == ":-1" and norm_text(v.slice) == "1:":
+            E = u.value
+    elif isinstance(it, ast.Call) and (call_name(it) or "") in ("itertools.pairwise", "pairwise") and len(it.args) == 1:
+        E = it.args[0]
+    if E is None:
+        raise AnalysisError("piecewise quadrature: the pieces are not consecutive pairs of one array: %s" % norm_text(it)[:60])
+    Ef = subst_names(E, env)
+    if not (isinstance(Ef, ast.Call) and (call_name(Ef) or "") in ("np.unique", "np.sort", "sorted", "numpy.unique", "numpy.sort") and Ef.args):
+        raise AnalysisError("piecewise quadrature: the interval ends are not sorted (np.unique / np.sort): %s" % norm_text(Ef)[:60])
+    inner = _strip_conv(Ef.args[0])
+    if isinstance(inner, ast.Call) and (call_name(inner) or "") in ("np.concatenate", "np.hstack", "numpy.concatenate") and inner.args:
+        inner = inner.args[0]
+    if not isinstance(inner, (ast.List, ast.Tuple)):
+        raise AnalysisError("piecewise quadrature: interval ends not given as a list: %s" % norm_text(inner)[:60])
+    scalars, clips = [], []
+    for x in inner.elts:
+        x0 = _strip_conv(x)
+        if isinstance(x0, (ast.List, ast.Tuple)) and len(x0.elts) == 1:
+            scalars.append(x0.elts[0])
+        elif isinstance(x0, ast.Call) and (call_name(x0) or "") in ("np.clip", "numpy.clip") and len(x0.args) == 3:
+            clips.append(x0)
+        elif isinstance(x0, (ast.List, ast.Tuple)):
+            raise AnalysisError("piecewise quadrature: unclipped break points: %s" % norm_text(x0)[:60])
+        else:
+            scalars.append(x0)
+    if len(scalars) != 2:
+        raise AnalysisError("piecewise quadrature: expected the two limits besides clipped break points, found %d" % len(scalars))
+    lo, hi = scalars
+    for c in clips:
+        if not (norm_text(c.args[1]) == norm_text(lo) and norm_text(c.args[2]) == norm_text(hi)):
+            if norm_text(c.args[1]) == norm_text(hi) and norm_text(c.args[2]) == norm_text(lo):
+                lo, hi = hi, lo
+            else:
+                raise AnalysisError("piecewise quadrature: break points are not clipped to the two limits")
+    breaks = []
+    for c in clips:
+        breaks += _elements(c.args[0])
+    return [lo, hi], breaks, outer
 
 
 def _none_params(e):
@@ -494,6 +709,8 @@ def _closed_form(ctx, prog, fi, rets, lm, sm, sl, ss):
             for _ in range(4):
                 ctx.holds(fi, r, "no integration limits: closed form", rule="R-C15-2")
             ctx.holds(fi, r, "closed form returned", rule="R-C15-3")
+            ctx.holds(fi, r, "no quadrature, no tolerance: closed form", rule="R-C15-7")
+            ctx.holds(fi, r, "no quadrature, no break points needed: closed form", rule="R-C15-8")
         else:
             ctx.violated(fi, r, "pf_norm_load returns Phi(z) with z = %r; the overlap of the two log-normal distributions is "
                          "z = (lm - sm)/sqrt(load_std^2 + strength_std^2) = %r" % (z, want), text="closed form")
@@ -711,39 +928,42 @@ def _state(ctx):
 # ------------------------------------------------------------------------------------------------ variants
 def variants():
     out = []
+    NL = "FailureProbability.pf_norm_load"
 
     def _q(tree):
-        f = find_func(tree, "FailureProbability.pf_norm_load")
+        f = find_func(tree, NL)
         for n in ast.walk(f):
             if isinstance(n, ast.Call) and (call_name(n) or "").endswith("quad"):
                 return f, n
         return f, None
 
-    def _lam(tree):
-        f, q = _q(tree)
-        return f, q, q.args[0]
+    def _offset_sub(f):
+        for n in ast.walk(f):
+            if isinstance(n, ast.BinOp) and isinstance(n.op, ast.Sub) and is_self_attr(n.left):
+                return n
+        return None
 
     def sign_offset(tree):
-        f, q, lam = _lam(tree)
-        for n in ast.walk(lam):
-            if isinstance(n, ast.BinOp) and isinstance(n.op, ast.Sub) and is_self_attr(n.left):
-                n.op = ast.Add()
-                return True
-        return False
+        f, q = _q(tree)
+        n = _offset_sub(f)
+        if n is None:
+            return False
+        n.op = ast.Add()
+        return True
     out.append(witness("strength located at s_50 + lm in the shifted coordinate", PATH, sign_offset, "R-C15-1"))
 
     def no_offset(tree):
-        f, q, lam = _lam(tree)
-        for n in ast.walk(lam):
-            if isinstance(n, ast.keyword) and n.arg == "loc" and isinstance(n.value, ast.BinOp):
-                n.value = n.value.left
-                return True
-        return False
+        f, q = _q(tree)
+        n = _offset_sub(f)
+        if n is None:
+            return False
+        n.right = ast.Constant(0.0)
+        return True
     out.append(witness("strength cdf not shifted with the load median", PATH, no_offset, "R-C15-1"))
 
     def swap_scales(tree):
-        f, q, lam = _lam(tree)
-        kws = [n for n in ast.walk(lam) if isinstance(n, ast.keyword) and n.arg == "scale"]
+        f, q = _q(tree)
+        kws = [n for n in ast.walk(f) if isinstance(n, ast.keyword) and n.arg == "scale"]
         if len(kws) != 2:
             return False
         kws[0].value, kws[1].value = kws[1].value, kws[0].value
@@ -759,15 +979,28 @@ def variants():
         return False
     out.append(witness("load median in natural logarithm, strength in log10", PATH, natural_log, "R-C15-1"))
 
+    def _integrand_value(f):
+        for n in ast.walk(f):
+            if isinstance(n, ast.Lambda):
+                return n, "body"
+            if isinstance(n, ast.FunctionDef) and n is not f:
+                r = [x for x in n.body if isinstance(x, ast.Return)]
+                if r:
+                    return r[-1], "value"
+        return None, None
+
     def extra_factor(tree):
-        f, q, lam = _lam(tree)
-        lam.body = ast.BinOp(left=lam.body, op=ast.Mult(), right=parse_expr("0.5"))
+        f, q = _q(tree)
+        n, field = _integrand_value(f)
+        if n is None:
+            return False
+        setattr(n, field, ast.BinOp(left=getattr(n, field), op=ast.Mult(), right=parse_expr("0.5")))
         return True
     out.append(witness("integrand halved", PATH, extra_factor, "R-C15-1"))
 
     def pdf_pdf(tree):
-        f, q, lam = _lam(tree)
-        for n in ast.walk(lam):
+        f, q = _q(tree)
+        for n in ast.walk(f):
             if isinstance(n, ast.Attribute) and n.attr == "cdf":
                 n.attr = "pdf"
                 return True
@@ -823,6 +1056,10 @@ def variants():
 
     def err(tree):
         f, q = _q(tree)
+        for n in ast.walk(f):
+            if isinstance(n, ast.Subscript) and n.value is q:
+                n.slice = ast.Constant(1)
+                return True
         st = _stmt_of_plain(f, q)
         if isinstance(st, ast.Assign) and isinstance(st.targets[0], ast.Tuple):
             st.targets[0].elts.reverse()
@@ -832,10 +1069,48 @@ def variants():
 
     def complement(tree):
         f, q = _q(tree)
-        r = [n for n in ast.walk(f) if isinstance(n, ast.Return)][-1]
+        r = f.body[-1]
+        if not isinstance(r, ast.Return):
+            return False
         r.value = ast.BinOp(left=ast.Constant(1.0), op=ast.Sub(), right=r.value)
         return True
     out.append(witness("complement returned", PATH, complement, "R-C15-3"))
+
+    def no_epsabs(tree):
+        f, q = _q(tree)
+        if not any(k.arg == "epsabs" for k in q.keywords):
+            return False
+        q.keywords = [k for k in q.keywords if k.arg != "epsabs"]
+        return True
+    out.append(witness("default absolute tolerance of quad", PATH, no_epsabs, "R-C15-7"))
+
+    def coarse_epsabs(tree):
+        f, q = _q(tree)
+        for k in q.keywords:
+            if k.arg == "epsabs":
+                k.value = ast.Constant(1e-10)
+                return True
+        return False
+    out.append(witness("absolute tolerance 1e-10", PATH, coarse_epsabs, "R-C15-7"))
+
+    def centre_only(tree):
+        f, q = _q(tree)
+        for n in ast.walk(f):
+            if isinstance(n, ast.Call) and call_name(n) == "np.array" and n.args and isinstance(n.args[0], ast.List) and len(n.args[0].elts) == 3:
+                n.args[0].elts = [ast.Constant(0.0)]
+                return True
+        return False
+    out.append(witness("range split at the centre of the strength cdf only", PATH, centre_only, "R-C15-8"))
+
+    def load_layer(tree):
+        f, q = _q(tree)
+        for n in ast.walk(f):
+            if isinstance(n, ast.BinOp) and isinstance(n.op, ast.Mult) and isinstance(n.left, ast.Call) and call_name(n.left) == "np.array" \
+                    and is_self_attr(n.right):
+                n.right = ast.Name(id=f.args.args[2].arg, ctx=ast.Load())
+                return True
+        return False
+    out.append(witness("break points scaled with the load scatter", PATH, load_layer, "R-C15-8"))
 
     def simple_ln(tree):
         f = find_func(tree, "FailureProbability.pf_simple_load")
@@ -857,8 +1132,8 @@ def variants():
 
     def arb_nox(tree):
         f = find_func(tree, "FailureProbability.pf_arbitrary_load")
-        r = [n for n in ast.walk(f) if isinstance(n, ast.Return)][-1]
-        if isinstance(r.value, ast.Call):
+        r = f.body[-1]
+        if isinstance(r, ast.Return) and isinstance(r.value, ast.Call):
             r.value.keywords = [k for k in r.value.keywords if k.arg != "x"]
             return True
         return False
@@ -883,46 +1158,45 @@ def variants():
     out.append(witness("strength cdf at log10 of the (already logarithmic) load values", PATH, arb_log, "R-C15-5"))
 
     def leak(tree):
-        f = find_func(tree, "FailureProbability.pf_norm_load")
+        f = find_func(tree, NL)
         f.body.insert(1, parse_stmt("self.s_50 = self.s_50 - np.log10(load_median)"))
-        for n in ast.walk(f):
-            if isinstance(n, ast.Lambda):
-                for k in ast.walk(n):
-                    if isinstance(k, ast.keyword) and k.arg == "loc" and isinstance(k.value, ast.BinOp):
-                        k.value = k.value.left
         return True
     out.append(witness("pf_norm_load stores the shifted strength median on the object", PATH, leak, "R-C15-6"))
 
     # ---- twins
+    def _body(src):
+        return ast.parse(src).body[0].body
+
     def unshifted(tree):
-        f = find_func(tree, "FailureProbability.pf_norm_load")
-        new = ast.parse('''
+        f = find_func(tree, NL)
+        f.body = _body("""
 def pf_norm_load(self, load_median, load_std, lower_limit=None, upper_limit=None):
     lm = np.log10(load_median)
     if lower_limit is None:
         lower_limit = lm - 16.0 * load_std
     if upper_limit is None:
         upper_limit = lm + 16.0 * load_std
-    res = integrate.quad(lambda y: norm.cdf(y, loc=self.s_50, scale=self.s_std) * norm.pdf(y, loc=lm, scale=load_std), lower_limit, upper_limit)
+    res = integrate.quad(lambda y: norm.cdf(y, loc=self.s_50, scale=self.s_std) * norm.pdf(y, loc=lm, scale=load_std), lower_limit, upper_limit,
+                         epsabs=1e-15, points=[self.s_50 - 6 * self.s_std, self.s_50 + 6 * self.s_std])
     return res[0]
-''').body[0]
-        f.body = new.body
+""")
         return True
-    out.append(twin("integration in the unshifted coordinate, factors exchanged, result by subscript", PATH, unshifted))
+    out.append(twin("one quad call in the unshifted coordinate with points=, factors exchanged, result by subscript", PATH, unshifted))
 
-    def nested_def(tree):
-        f, q, lam = _lam(tree)
-        fn = ast.parse("def _integrand(t):\n    dens = 0\n    return dens").body[0]
-        body = subst_names(lam.body, {lam.args.args[0].arg: ast.Name(id="t", ctx=ast.Load())})
-        fac = _factors(body)
-        fn.body = [ast.Assign(targets=[ast.Name(id="dens", ctx=ast.Store())], value=fac[0]),
-                   ast.Return(value=ast.BinOp(left=ast.Name(id="dens", ctx=ast.Load()), op=ast.Mult(), right=fac[1]))]
-        st = _stmt_of_plain(f, q)
-        i = f.body.index(st)
-        f.body.insert(i, fn)
-        q.args[0] = ast.Name(id="_integrand", ctx=ast.Load())
+    def as_lambda(tree):
+        f, q = _q(tree)
+        inner = [n for n in f.body if isinstance(n, ast.FunctionDef)]
+        if len(inner) != 1 or not isinstance(q.args[0], ast.Name):
+            return False
+        d = inner[0]
+        r = [x for x in d.body if isinstance(x, ast.Return)]
+        if len(d.body) != 1 or not r:
+            return False
+        lam = ast.Lambda(args=d.args, body=r[0].value)
+        f.body[f.body.index(d)] = ast.Assign(targets=[ast.Name(id="dens_times_cdf", ctx=ast.Store())], value=lam)
+        q.args[0] = ast.Name(id="dens_times_cdf", ctx=ast.Load())
         return True
-    out.append(twin("integrand as a nested function with a temporary", PATH, nested_def))
+    out.append(twin("integrand as a lambda bound to a local name", PATH, as_lambda))
 
     def wider(tree):
         f, q = _q(tree)
@@ -934,30 +1208,45 @@ def pf_norm_load(self, load_median, load_std, lower_limit=None, upper_limit=None
         return hit
     out.append(twin("default limits at 12 sigma", PATH, wider))
 
+    def layer6(tree):
+        f, q = _q(tree)
+        hit = False
+        for n in ast.walk(f):
+            if isinstance(n, ast.Constant) and n.value == 8.0:
+                n.value = 6.0
+                hit = True
+            elif isinstance(n, ast.UnaryOp) and isinstance(n.operand, ast.Constant) and n.operand.value == 8.0:
+                n.operand.value = 6.0
+                hit = True
+        return hit
+    out.append(twin("break points at 6 strength scatters", PATH, layer6))
+
     def clip(tree):
         f, q = _q(tree)
-        r = [n for n in ast.walk(f) if isinstance(n, ast.Return)][-1]
+        r = f.body[-1]
+        if not isinstance(r, ast.Return):
+            return False
         r.value = ast.Call(func=parse_expr("np.clip"), args=[r.value, ast.Constant(0.0), ast.Constant(1.0)], keywords=[])
         return True
     out.append(twin("result clipped to [0, 1]", PATH, clip))
 
     def closed(tree):
-        f = find_func(tree, "FailureProbability.pf_norm_load")
-        f.body = ast.parse("def f():\n    lm = np.log10(load_median)\n    return norm.cdf((lm - self.s_50) / np.sqrt(load_std ** 2 + self.s_std ** 2))").body[0].body
+        f = find_func(tree, NL)
+        f.body = _body("def f():\n    lm = np.log10(load_median)\n    return norm.cdf((lm - self.s_50) / np.sqrt(load_std ** 2 + self.s_std ** 2))")
         return True
     out.append(twin("quadrature replaced by the closed form", PATH, closed))
 
     def closed_wrong(tree):
-        f = find_func(tree, "FailureProbability.pf_norm_load")
-        f.body = ast.parse("def f():\n    lm = np.log10(load_median)\n    return norm.cdf((lm - self.s_50) / (load_std + self.s_std))").body[0].body
+        f = find_func(tree, NL)
+        f.body = _body("def f():\n    lm = np.log10(load_median)\n    return norm.cdf((lm - self.s_50) / (load_std + self.s_std))")
         return True
     out.append(witness("closed form with added standard deviations", PATH, closed_wrong, "R-C15-1"))
 
     def frozen(tree):
-        f = find_func(tree, "FailureProbability.pf_norm_load")
-        f.body = ast.parse("def f():\n    lm = np.log10(load_median)\n    lo = lm - 20 * load_std if lower_limit is None else lower_limit\n    hi = lm + 20 * load_std if upper_limit is None else upper_limit\n    L = norm(loc=lm, scale=load_std)\n    S = norm(self.s_50, self.s_std)\n    q = integrate.quad(lambda x: L.pdf(x) * S.cdf(x), lo, hi)\n    return q[0]").body[0].body
+        f = find_func(tree, NL)
+        f.body = _body("def f():\n    lm = np.log10(load_median)\n    lo = lm - 20 * load_std if lower_limit is None else lower_limit\n    hi = lm + 20 * load_std if upper_limit is None else upper_limit\n    L = norm(loc=lm, scale=load_std)\n    S = norm(self.s_50, self.s_std)\n    ends = np.unique(np.concatenate([[lo], np.clip(self.s_50 + np.array([-5.0, 5.0]) * self.s_std, lo, hi), [hi]]))\n    q = sum(integrate.quad(lambda x: L.pdf(x) * S.cdf(x), a, b, epsabs=0)[0] for a, b in zip(ends[:-1], ends[1:]))\n    return q")
         return True
-    out.append(twin("frozen distributions, unshifted coordinate", PATH, frozen))
+    out.append(twin("frozen distributions, unshifted coordinate, two break points, epsabs=0", PATH, frozen))
     return out
 
 
